@@ -51,7 +51,7 @@ def evaluate(res):
 
 
 def run(rep, tier, seed, replay, proof_ok, proof_msg):
-    ftree.standard(rep, tier, seed, replay, proof_ok, proof_msg, "C06", 360, 5000, False, evaluate, export=False)
+    ftree.standard(rep, tier, seed, replay, proof_ok, proof_msg, "C06", 360, 40000, False, evaluate, export=False)
     rep.assumptions += ["containment is decided in exact rational arithmetic on the library's own corner / leaf width, with a tolerance of 4 ulp of the coordinate type "
                         "(IEEE rounding of (x - corner) / leafWidth can move a point that lies within one rounding of a face to the neighbouring cell; the bit-exact Lean Float/Float32 run reproduces the library's choice)",
                         "target/source trees: see C09"]
